@@ -27,7 +27,7 @@ func staticMethodCall(cc *ssa.CallCommon, fn *ssa.Function) bool {
 
 func init() {
 	register(&Rule{
-		ID: "R02.2", Props: []string{"C02", "C03", "C07"}, Engine: "order (path automaton, err-edge sensitive)",
+		ID: "R02.2", Props: []string{"C02", "C03", "C07", "C04"}, Engine: "order (path automaton, err-edge sensitive)",
 		Text: "data before metadata: in notifyAndSyncDataLocked NotifySyncStarting precedes the DataSyncer call and NotifySyncCompleted is reached only through the err==nil edge of a DataSyncer call (failures loop back, so the sync is retried until it succeeds); " +
 			"in writePersistentState the order is GetPersistentState, WritePersistentState, and NotifyPersistentStateWritten only on the success edge of the write, whose message carries the snapshot just taken; a nil return means all three happened; " +
 			"writePersistentStateRetrying returns only after a successful writePersistentState",
